@@ -94,10 +94,16 @@ impl Lace {
             cmd.env(k, v);
         }
         let mut child = cmd.spawn().expect("spawn lace");
-        {
+        // Standard input is fed from its own thread: a child that prints a lot before it has read
+        // all of its input would otherwise block on its full output pipe while we block on its
+        // full input pipe.
+        let feeder = {
             let mut si = child.stdin.take().unwrap();
-            let _ = si.write_all(stdin);
-        }
+            let data = stdin.to_vec();
+            std::thread::spawn(move || {
+                let _ = si.write_all(&data);
+            })
+        };
         // Reader threads avoid pipe deadlocks; a generous wall clock guards against hangs.
         let so = child.stdout.take().unwrap();
         let se = child.stderr.take().unwrap();
@@ -142,6 +148,7 @@ impl Lace {
         };
         let stdout = t1.join().unwrap_or_default();
         let stderr = t2.join().unwrap_or_default();
+        let _ = feeder.join();
         use std::os::unix::process::ExitStatusExt;
         let code = match status.code() {
             Some(c) => c,
